@@ -3,7 +3,12 @@ HERE = os.path.dirname(os.path.dirname(os.path.abspath(__file__)))
 sys.path.insert(0, os.path.join(HERE, 'lib'))
 import vrun, irb
 
-META = dict(functions=[], stubs=[], assumptions=[], outside=[])
+META = dict(
+    functions=['scanners.c: all 29 scan_* functions (Engine B: clang -O1 IR -> flat C, translation validated against the real functions on tests/MMD6Tests every run)'],
+    stubs=['byte arena MEM[] with an explicit valid window [buf, buf+len] (NUL included) for the IR-derived scanners'],
+    assumptions=['input is a NUL-terminated buffer; every byte value allowed'],
+    outside=['epub.c, zip.c/miniz.c, textbundle.c, packaging, uthash macro bodies, argtable3, file.c I/O', 'defects that need more than N bytes or K tokens to trigger', 'interaction between units beyond the span invariant of C15'],
+)
 
 def scanner_harnesses(tier):
     hs = []
@@ -24,4 +29,12 @@ def scanner_harnesses(tier):
 def harnesses(tier):
     return scanner_harnesses(tier)
 
-CLAIM = dict(text='x', note='x')
+CLAIM = dict(
+    text='Memory safety is decided by CBMC on the units the anchors name, with arbitrary input: every re2c scanner (via its LLVM IR) reads only inside '
+         'the NUL-terminated buffer for ALL byte strings within the bound; the token primitives leave no freed object reachable (pool disabled); the '
+         'string kernels, attribute/table/look-around code run under the built-in pointer, bounds, overflow and shift checks with exact-size buffers. '
+         'No functional oracle is needed: the obligation is that no check fires.',
+    note='trusted: CBMC, clang IR + ir2c translation (validated natively each run against the real functions); bounds per harness (N<=3-6 bytes, K<=3-4 tokens); whole-pipeline runs are out of reach',
+    technique='CBMC bounded model checking (built-in memory-safety checks) of real units and of IR-derived scanners on symbolic NUL-terminated buffers',
+    engine='ir2c+cbmc',
+)
